@@ -1,4 +1,5 @@
 import FFVerif.Props.C01
+import FFVerif.Props.C01Seg
 #print axioms FFVerif.C01.segIntegral_closed
 #print axioms FFVerif.C01.segIntegral_zero
 #print axioms FFVerif.C01.firstOrderEntry_exact
@@ -14,3 +15,8 @@ import FFVerif.Props.C01
 #print axioms FFVerif.C01.ff_gen_hermitian
 #print axioms FFVerif.C01.ff_posSemidef
 #print axioms FFVerif.C01.ff_diag_nonneg
+#print axioms FFVerif.C01.trace_Useg
+#print axioms FFVerif.C01.cm_entry
+#print axioms FFVerif.C01.segment_trace_integral
+#print axioms FFVerif.C01.cm_segment_form
+#print axioms FFVerif.C01.cm_segment_form_error
